@@ -42,6 +42,13 @@ def install():
 
         return label
 
+    def digest_len(pkttype, payload):
+        # kex replies carry a signature over H; with the hybrid ML-KEM
+        # exchanges H depends on OpenSSL's encapsulation randomness, which
+        # the seed does not control, and an ECDSA signature's DER length
+        # varies with H.  Keep that out of the determinism digest.
+        return -1 if 31 <= pkttype <= 34 else len(payload)
+
     def log_sent(self, pkttype, pktid, packet, note=''):
         sim = seams._state['sim']
 
@@ -55,7 +62,7 @@ def install():
                 label = label_of(sim, conn)
                 payload = bytes(packet)
                 sim.pkts[label].append(('S', pkttype, pktid, payload, ''))
-                sim.log('S', label, pkttype, len(payload))
+                sim.log('S', label, pkttype, digest_len(pkttype, payload))
 
                 if sim.on_packet is not None:
                     sim.on_packet(label, conn, 'S', pkttype, pktid, payload)
@@ -73,7 +80,8 @@ def install():
                 label = label_of(sim, conn)
                 payload = bytes(packet)
                 sim.pkts[label].append(('R', pkttype, pktid, payload, note))
-                sim.log('R', label, pkttype, len(payload), note)
+                sim.log('R', label, pkttype, digest_len(pkttype, payload),
+                        note)
 
                 if sim.on_packet is not None:
                     sim.on_packet(label, conn, 'R', pkttype, pktid, payload)
@@ -87,6 +95,10 @@ def install():
             label = label_of(sim, self)
             sim.escrow.setdefault(label, []).append(
                 (bytes(k), bytes(h), bytes(self._session_id or h)))
+            kex = getattr(self, '_kex', None)
+            name = getattr(kex, 'algorithm', b'')
+            sim.kex_used.setdefault(label, []).append(
+                name.decode() if isinstance(name, bytes) else str(name))
 
         return orig_newkeys(self, k, h)
 
